@@ -219,3 +219,1745 @@ def midxLargeMask : Nat := {gi_consts[1]}
 end Dulwich.Gen.Accel
 """
     return {"Accel": src}
+
+
+# ================================================================================================
+# WITH / WITHOUT oracle: twin repositories
+# ================================================================================================
+#
+# A scenario is a list of ops (JSON-able), interpreted against two bare repositories:
+#   N  never receives an acceleration file (the "without" run);
+#   A  receives the same logical ops plus the accelerator ops (the "with" run).
+# Both are driven through a long-lived Repo object (so caches inside dulwich are exercised: the
+# stat-identity cache of packed-refs, the cached commit graph / MIDX / bitmaps) and, at every
+# checkpoint, additionally opened afresh.  Queries are asked of N and A and the PAIR is compared.
+#
+# ops:
+#   ["commit", name, [parent names], "loose"|"pack"]
+#   ["tag", name, target name, "loose"|"pack"]           annotated tag object
+#   ["ref", refname, target name | None, "dulwich"|"git"]  set / delete a ref
+#   ["repack", "dulwich"|"git"]   ["pack-loose"]   ["prune"]
+#   ["accel", kind, writer, variant]      A only; kind in ACCEL_KINDS
+#   ["snapshot", label]  ["restore", label, kind]   A only: save / put back acceleration files (staleness, mismatch)
+#   ["donor", kind]                        A only: copy the file from an unrelated repository
+#   ["rm", kind]                           A only: delete the files of one kind
+#   ["check", label]
+
+ACCEL_KINDS = ["commit-graph", "midx", "bitmap", "packed-refs", "idx-version"]
+
+
+def _git(path, *args, check=True, extra_cfg=()):
+    import subprocess
+    cmd = ["git", "-C", str(path), "-c", "gc.auto=0", "-c", "maintenance.auto=false"]
+    for c in extra_cfg:
+        cmd += ["-c", c]
+    p = subprocess.run(cmd + list(args), env=core.clean_env(), stdout=subprocess.PIPE, stderr=subprocess.STDOUT,
+                       text=True, errors="replace", timeout=120)
+    if check and p.returncode != 0:
+        raise core.InfraError(f"git {' '.join(args)} failed in {path}: {p.stdout[-500:]}")
+    return p.returncode, p.stdout
+
+
+class Side:
+    """One of the two repositories."""
+
+    def __init__(self, path: Path, accelerated: bool):
+        from dulwich.repo import Repo
+        self.path = Path(path)
+        self.accelerated = accelerated
+        self.path.mkdir(parents=True)
+        self.ll = Repo.init_bare(str(self.path))   # long-lived handle
+
+    def fresh(self):
+        from dulwich.repo import Repo
+        return Repo(str(self.path))
+
+    def close(self):
+        try:
+            self.ll.close()
+        except Exception:
+            pass
+
+
+def _install(src: Path, dst: Path):
+    """Put a file in place the way every git tool does: write beside, then rename (a reader that has the old
+    file mapped keeps seeing the old, complete file)."""
+    import os
+    import shutil
+    tmp = Path(str(dst) + ".verif-tmp")
+    shutil.copy2(src, tmp)
+    os.replace(tmp, dst)
+
+
+def _accel_files(path: Path) -> dict:
+    """kind -> list of files of that kind currently present (packed-refs and idx are not 'removable')."""
+    path = Path(path)
+    out = {"commit-graph": [], "midx": [], "bitmap": []}
+    p = path / "objects" / "info" / "commit-graph"
+    if p.exists():
+        out["commit-graph"].append(p)
+    d = path / "objects" / "info" / "commit-graphs"
+    if d.exists():
+        out["commit-graph"] += sorted(x for x in d.iterdir())
+    p = path / "objects" / "pack" / "multi-pack-index"
+    if p.exists():
+        out["midx"].append(p)
+    pd = path / "objects" / "pack"
+    if pd.exists():
+        out["bitmap"] += sorted(pd.glob("*.bitmap"))
+        out["midx"] += sorted(pd.glob("multi-pack-index*.rev"))
+        out["bitmap"] += sorted(pd.glob("multi-pack-index*.bitmap"))
+    return out
+
+
+class Twin:
+    def __init__(self, root: Path, donor: Path | None = None):
+        self.root = Path(root)
+        self.N = Side(self.root / "N", False)
+        self.A = Side(self.root / "A", True)
+        self.sides = [self.N, self.A]
+        self.donor = donor
+        self.ids: dict[str, bytes] = {}          # logical name -> object id
+        self.kind: dict[bytes, str] = {}         # object id -> commit/tree/blob/tag
+        self.parents: dict[bytes, list] = {}     # commit id -> parent ids (ground truth, by construction)
+        self.tree_of: dict[bytes, bytes] = {}    # commit id -> tree id
+        self.tree_entries: dict[bytes, list] = {}  # tree id -> child ids
+        self.tag_target: dict[bytes, bytes] = {}
+        self.files: dict[str, dict] = {}         # commit name -> {path: content}
+        self.refs: dict[bytes, bytes] = {}       # logical ref state (ground truth)
+        self.refnames: set[bytes] = set()
+        self.counter = 0
+        self.accel_log: list = []                # accelerator ops applied so far (for classification)
+        self.extra_ids: list[bytes] = []         # ids of objects of the donor repository (absent here)
+        self.written: set[str] = set()
+
+    # ---- object construction (deterministic) --------------------------------------------------
+    def _mk_tree_objs(self, files: dict):
+        from dulwich.objects import Blob, Tree
+        objs = []
+        root = {}
+        for p, content in sorted(files.items()):
+            parts = p.split("/")
+            d = root
+            for q in parts[:-1]:
+                d = d.setdefault(q, {})
+            d[parts[-1]] = content
+
+        def build(d):
+            t = Tree()
+            kids = []
+            for name, v in sorted(d.items()):
+                if isinstance(v, dict):
+                    sub = build(v)
+                    t.add(name.encode(), 0o40000, sub.id)
+                    kids.append(sub.id)
+                else:
+                    b = Blob.from_string(v)
+                    objs.append(b)
+                    self.kind[b.id] = "blob"
+                    t.add(name.encode(), 0o100644, b.id)
+                    kids.append(b.id)
+            objs.append(t)
+            self.kind[t.id] = "tree"
+            self.tree_entries[t.id] = kids
+            return t
+        t = build(root)
+        return t, objs
+
+    def _store(self, objs, storage):
+        for s in self.sides:
+            st = s.ll.object_store
+            if storage == "loose":
+                for o in objs:
+                    st.add_object(o)
+            else:
+                st.add_objects([(o, None) for o in objs])
+
+    def op_commit(self, name, parents, storage):
+        from dulwich.objects import Commit
+        self.counter += 1
+        n = self.counter
+        files = dict(self.files[parents[0]]) if parents else {}
+        files[f"f{n % 4}"] = b"content %d\n" % n
+        if n % 3 == 0:
+            files[f"d/x{n % 2}"] = b"sub %d\n" % (n // 3)
+        if n % 7 == 0 and len(files) > 2:
+            files.pop(sorted(files)[0])
+        self.files[name] = files
+        tree, objs = self._mk_tree_objs(files)
+        c = Commit()
+        c.tree = tree.id
+        c.parents = [self.ids[p] for p in parents]
+        c.author = c.committer = b"V <v@example.com>"
+        # deliberately non-monotonic clocks (C13 says walks must not depend on them)
+        c.author_time = c.commit_time = 1_600_000_000 + (n * 37) % 500
+        c.author_timezone = c.commit_timezone = 0
+        c.message = b"commit %d\n" % n
+        self.ids[name] = c.id
+        self.kind[c.id] = "commit"
+        self.parents[c.id] = list(c.parents)
+        self.tree_of[c.id] = tree.id
+        self._store(objs + [c], storage)
+
+    def op_tag(self, name, target, storage):
+        from dulwich.objects import Tag, Commit as C, Tag as TG
+        t = Tag()
+        tid = self.ids[target]
+        t.name = name.encode()
+        t.object = (C if self.kind[tid] == "commit" else TG, tid)
+        t.tagger = b"V <v@example.com>"
+        t.tag_time = 1_600_000_000
+        t.tag_timezone = 0
+        t.message = b"tag " + name.encode() + b"\n"
+        self.ids[name] = t.id
+        self.kind[t.id] = "tag"
+        self.tag_target[t.id] = tid
+        self._store([t], storage)
+
+    def op_ref(self, refname, target, actor):
+        rn = refname.encode() if isinstance(refname, str) else refname
+        self.refnames.add(rn)
+        val = self.ids[target] if target is not None else None
+        for s in self.sides:
+            if actor == "git":
+                if val is None:
+                    _git(s.path, "update-ref", "-d", rn.decode())
+                else:
+                    _git(s.path, "update-ref", rn.decode(), val.decode())
+            else:
+                if val is None:
+                    try:
+                        del s.ll.refs[rn]
+                    except KeyError:
+                        pass
+                else:
+                    s.ll.refs[rn] = val
+        if val is None:
+            self.refs.pop(rn, None)
+        else:
+            self.refs[rn] = val
+
+    def op_repack(self, actor):
+        for s in self.sides:
+            if actor == "git":
+                # -A: unreachable objects are kept (loose); later commits may name them as parents
+                _git(s.path, "repack", "-A", "-d", "-q")
+                s.ll.object_store._update_pack_cache()   # pack-cache staleness of a long-lived handle is C10's topic
+            else:
+                s.ll.object_store.repack()
+
+    def op_pack_loose(self):
+        for s in self.sides:
+            s.ll.object_store.pack_loose_objects()
+
+    def op_prune(self):
+        """repack excluding what is unreachable from the refs (what gc does, without its pack_refs step)."""
+        from dulwich.gc import find_unreachable_objects
+        res = []
+        for s in self.sides:
+            un = find_unreachable_objects(s.ll.object_store, s.ll.refs)
+            res.append(un)
+            s.ll.object_store.repack(exclude=un)
+        return res
+
+    # ---- accelerators (A only) ------------------------------------------------------------------
+    def op_accel(self, kind, writer, variant):
+        A = self.A
+        st = A.ll.object_store
+        self.accel_log.append([kind, writer, variant])
+        self.written.add(kind)
+        if kind == "commit-graph":
+            if writer == "git":
+                args = ["commit-graph", "write", "--reachable"]
+                if variant == "split":
+                    args.append("--split")
+                _git(A.path, *args)
+            elif variant == "all":
+                st.write_commit_graph()
+            elif variant == "tips-only":
+                from dulwich import porcelain
+                porcelain.write_commit_graph(str(A.path), reachable=False)
+            else:
+                from dulwich import porcelain
+                porcelain.write_commit_graph(str(A.path), reachable=True)
+        elif kind == "midx":
+            if writer == "git":
+                _git(A.path, "multi-pack-index", "write")
+            else:
+                st.write_midx()
+        elif kind == "bitmap":
+            if writer == "git":
+                cfg = ["pack.writeBitmapHashCache=" + ("true" if "hash" in variant else "false"),
+                       "pack.writeBitmapLookupTable=" + ("true" if "lookup" in variant else "false")]
+                _git(A.path, "repack", "-A", "-d", "-b", "-q", extra_cfg=cfg)
+                _git(self.N.path, "repack", "-A", "-d", "-q")   # the logical part of the op
+                for sd in self.sides:
+                    sd.ll.object_store._update_pack_cache()
+            else:
+                refs = A.ll.refs.as_dict()
+                if variant == "generate":
+                    st.generate_pack_bitmaps(refs)
+                else:
+                    from dulwich.bitmap import generate_bitmap, write_bitmap
+                    for p in list(st.packs):
+                        bm = generate_bitmap(p.index, st, refs, p.get_stored_checksum(),
+                                             include_hash_cache="hash" in variant,
+                                             include_lookup_table="lookup" in variant, commit_interval=3)
+                        write_bitmap(p._bitmap_path, bm)
+                        p._bitmap = None
+        elif kind == "packed-refs":
+            if writer == "git":
+                _git(A.path, "pack-refs", *(["--all"] if variant == "all" else []))
+            else:
+                A.ll.refs.pack_refs(all=(variant == "all"))
+        elif kind == "idx-version":
+            self._reindex(A, int(variant))
+        else:
+            raise ValueError(kind)
+
+    def _reindex(self, side: Side, version: int):
+        """Rewrite every pack index of `side` in another index version; future packs use it too."""
+        import os
+        from dulwich.object_format import SHA1
+        from dulwich.pack import load_pack_index, write_pack_index
+        pd = side.path / "objects" / "pack"
+        for idxp in sorted(pd.glob("*.idx")):
+            idx = load_pack_index(str(idxp), SHA1)
+            try:
+                entries = list(idx.iterentries())
+                cks = idx.get_pack_checksum()
+            finally:
+                idx.close()
+            tmp = idxp.with_suffix(".idx.tmp")
+            with open(tmp, "wb") as f:
+                write_pack_index(f, entries, cks, version=version)
+            os.chmod(tmp, 0o644)
+            os.replace(tmp, idxp)
+        side.ll.object_store.pack_index_version = version
+        cfg = side.ll.get_config()
+        cfg.set((b"pack",), b"indexVersion", str(version).encode())
+        cfg.write_to_path()
+
+    def op_snapshot(self, label):
+        import shutil
+        d = self.root / ("snap-" + label)
+        d.mkdir(exist_ok=True)
+        for kind, files in _accel_files(self.A.path).items():
+            for f in files:
+                if f.is_file():
+                    shutil.copy2(f, d / (kind + "@" + f.name))
+
+    def op_restore(self, label, kind):
+        """Put saved files of `kind` back: commit-graph / midx at their place; a saved bitmap is copied onto the
+        name of a pack that exists NOW (its own pack if that still exists, else another one = mismatched)."""
+        import shutil
+        d = self.root / ("snap-" + label)
+        if not d.exists():
+            return
+        pd = self.A.path / "objects" / "pack"
+        self.accel_log.append(["restore", label, kind])
+        for f in sorted(d.iterdir()):
+            k, name = f.name.split("@", 1)
+            if k != kind:
+                continue
+            if kind == "commit-graph":
+                (self.A.path / "objects" / "info").mkdir(exist_ok=True)
+                _install(f, self.A.path / "objects" / "info" / "commit-graph")
+            elif kind == "midx":
+                _install(f, pd / name)
+            elif kind == "bitmap":
+                packs = sorted(pd.glob("pack-*.pack"))
+                if not packs:
+                    continue
+                own = pd / (name[:-len(".bitmap")] + ".pack")
+                target = own if own.exists() else packs[0]
+                _install(f, target.with_suffix(".bitmap"))
+        self._drop_ll_caches()
+
+    def op_donor(self, kind):
+        import shutil
+        if self.donor is None:
+            return
+        self.accel_log.append(["donor", kind])
+        files = _accel_files(self.donor)[kind]
+        pd = self.A.path / "objects" / "pack"
+        for f in files:
+            if kind == "commit-graph" and f.name == "commit-graph":
+                (self.A.path / "objects" / "info").mkdir(exist_ok=True)
+                _install(f, self.A.path / "objects" / "info" / "commit-graph")
+            elif kind == "midx" and f.name == "multi-pack-index":
+                _install(f, pd / f.name)
+            elif kind == "bitmap" and f.name.startswith("pack-"):
+                packs = sorted(pd.glob("pack-*.pack"))
+                if packs:
+                    _install(f, packs[-1].with_suffix(".bitmap"))
+                break
+        self._drop_ll_caches()
+
+    def op_rm(self, kind):
+        for f in _accel_files(self.A.path)[kind]:
+            try:
+                f.unlink()
+            except OSError:
+                pass
+
+    def _drop_ll_caches(self):
+        """Files were swapped underneath the long-lived handle by 'another process'.  dulwich offers no
+        invalidation for these caches and the property does not promise one for a cached-but-correct
+        file; we only drop per-pack bitmap objects so that the swapped-in file is actually read."""
+        for p in list(self.A.ll.object_store.packs):
+            p._bitmap = None
+
+    # ---- interpreter ----------------------------------------------------------------------------
+    def apply(self, op):
+        k = op[0]
+        if k == "commit":
+            self.op_commit(op[1], op[2], op[3])
+        elif k == "tag":
+            self.op_tag(op[1], op[2], op[3])
+        elif k == "ref":
+            self.op_ref(op[1], op[2], op[3])
+        elif k == "repack":
+            self.op_repack(op[1])
+        elif k == "pack-loose":
+            self.op_pack_loose()
+        elif k == "prune":
+            self.op_prune()
+        elif k == "accel":
+            self.op_accel(op[1], op[2], op[3])
+        elif k == "snapshot":
+            self.op_snapshot(op[1])
+        elif k == "restore":
+            self.op_restore(op[1], op[2])
+        elif k == "donor":
+            self.op_donor(op[1])
+        elif k == "rm":
+            self.op_rm(op[1])
+        else:
+            raise ValueError(f"unknown op {op}")
+
+    def close(self):
+        for s in self.sides:
+            s.close()
+
+    # ---- ground truth helpers (from construction, independent of dulwich's readers) --------------
+    def closure(self, starts, stop=()):
+        """all objects reachable from `starts` (commits, trees, blobs, tags), never entering `stop`."""
+        seen, todo = set(), list(starts)
+        while todo:
+            x = todo.pop()
+            if x in seen or x in stop:
+                continue
+            seen.add(x)
+            k = self.kind.get(x)
+            if k == "commit":
+                todo.append(self.tree_of[x])
+                todo.extend(self.parents[x])
+            elif k == "tree":
+                todo.extend(self.tree_entries[x])
+            elif k == "tag":
+                todo.append(self.tag_target[x])
+        return seen
+
+    def ancestors(self, starts):
+        seen, todo = set(), list(starts)
+        while todo:
+            x = todo.pop()
+            if x in seen:
+                continue
+            seen.add(x)
+            todo.extend(self.parents.get(x, []))
+        return seen
+
+    def peel(self, oid):
+        while self.kind.get(oid) == "tag":
+            oid = self.tag_target[oid]
+        return oid
+
+
+# ------------------------------------------------------------------------------------------------
+# queries (the property's list), canonicalised
+
+def _canon_exc(e: BaseException) -> list:
+    return ["EXC", type(e).__name__]
+
+
+def _try(fn):
+    try:
+        return fn()
+    except Exception as e:  # the pair must agree on failures too
+        return _canon_exc(e)
+
+
+def make_plan(tw: Twin, rng, n_each=5) -> dict:
+    """Which queries to ask at a checkpoint (same plan for both sides)."""
+    commits = sorted(tw.parents)
+    tags = sorted(o for o, k in tw.kind.items() if k == "tag")
+    tips = sorted({tw.peel(v) for v in tw.refs.values()} & set(commits))
+    pick = lambda pool, k: [rng.choice(pool) for _ in range(k)] if pool else []   # noqa: E731
+    plan = {"anc": [], "mb": [], "ff": [], "shallow": [], "depth": [], "walk": [], "reachc": [], "reacho": [], "mof": []}
+    if not commits:
+        return plan
+    bias = lambda: rng.choice(tips) if tips and rng.random() < 0.6 else rng.choice(commits)   # noqa: E731
+    plan["anc"].append([tips or commits[:1], []])
+    for _ in range(n_each):
+        heads = sorted({bias() for _ in range(rng.randint(1, 3))})
+        common = sorted({rng.choice(commits) for _ in range(rng.randint(0, 2))})
+        plan["anc"].append([heads, common])
+        plan["mb"].append(sorted({bias() for _ in range(rng.choice([2, 2, 2, 3]))}))
+        plan["ff"].append([rng.choice(commits), bias()])
+        plan["reachc"].append([heads, common])
+        plan["reacho"].append([sorted({bias() for _ in range(rng.randint(1, 2))}),
+                               sorted({rng.choice(commits) for _ in range(rng.randint(0, 1))})])
+        haves = sorted({rng.choice(commits + tags) for _ in range(rng.randint(0, 2))})
+        wants = sorted({rng.choice((tips or commits) + tags) for _ in range(rng.randint(1, 2))})
+        plan["mof"].append([haves, wants])
+    plan["mof"].append([[], tips or commits[:1]])
+    for _ in range(max(2, n_each // 2)):
+        plan["shallow"].append([sorted({bias() for _ in range(rng.randint(1, 2))}), rng.randint(1, 4)])
+        plan["depth"].append(bias())
+        plan["walk"].append([[bias()], pick(commits, rng.randint(0, 1))])
+    return plan
+
+
+def ask(repo, tw: Twin, plan: dict) -> dict:
+    """Answers of one repository handle to every query of the plan.  Keys are JSON strings."""
+    import hashlib
+    import json
+    from dulwich.graph import can_fast_forward, find_merge_base, find_octopus_base
+    from dulwich.object_store import MissingObjectFinder, _collect_ancestors, find_shallow, get_depth
+    from dulwich.gc import find_unreachable_objects
+    st = repo.object_store
+    out = {}
+
+    def put(key, fn):
+        out[json.dumps(key)] = _try(fn)
+    absent = [hashlib.sha1(b"absent%d" % i).hexdigest().encode() for i in range(2)]
+    # 1. object lookup
+    for oid in sorted(tw.kind) + absent + tw.extra_ids:
+        put(["in", oid.decode()], lambda: oid in st)
+
+        def get():
+            o = st[oid]
+            return [o.type_name.decode(), hashlib.sha1(o.as_raw_string()).hexdigest()]
+        put(["get", oid.decode()], get)
+        put(["raw", oid.decode()], lambda: hashlib.sha1(repr(st.get_raw(oid)).encode()).hexdigest())
+    put(["iter"], lambda: sorted(x.decode() for x in st))
+    # 2. parents of every commit
+    for c in sorted(tw.parents):
+        put(["parents", c.decode()], lambda: [p.decode() for p in repo.parents_provider().get_parents(c)])
+    # 3. ancestry
+    for heads, common in plan["anc"]:
+        def anc():
+            a, b = _collect_ancestors(st, list(heads), frozenset(common))
+            return [sorted(x.decode() for x in a), sorted(x.decode() for x in b)]
+        put(["anc", [h.decode() for h in heads], [c.decode() for c in common]], anc)
+    for cs in plan["mb"]:
+        put(["merge-base", [c.decode() for c in cs]], lambda: sorted(x.decode() for x in find_merge_base(repo, list(cs))))
+        put(["octopus-base", [c.decode() for c in cs]], lambda: sorted(x.decode() for x in find_octopus_base(repo, list(cs))))
+    for c1, c2 in plan["ff"]:
+        put(["can-ff", c1.decode(), c2.decode()], lambda: bool(can_fast_forward(repo, c1, c2)))
+    for heads, depth in plan["shallow"]:
+        def sh():
+            a, b = find_shallow(st, list(heads), depth)
+            return [sorted(x.decode() for x in a), sorted(x.decode() for x in b)]
+        put(["shallow", [h.decode() for h in heads], depth], sh)
+    for h in plan["depth"]:
+        put(["depth", h.decode()], lambda: get_depth(st, h))
+    for inc, exc in plan["walk"]:
+        put(["walk", [h.decode() for h in inc], [h.decode() for h in exc]],
+            lambda: [e.commit.id.decode() for e in repo.get_walker(include=list(inc), exclude=list(exc))])
+    # 4. reachable-object sets
+    for heads, excl in plan["reachc"]:
+        put(["reach-commits", [h.decode() for h in heads], [c.decode() for c in excl]],
+            lambda: sorted(x.decode() for x in st.get_reachability_provider().get_reachable_commits(list(heads), list(excl) or None)))
+    for cs, excl in plan["reacho"]:
+        put(["reach-objects", [h.decode() for h in cs], [c.decode() for c in excl]],
+            lambda: sorted(x.decode() for x in st.get_reachability_provider().get_reachable_objects(list(cs), list(excl) or None)))
+    # 5. objects chosen for a transfer
+    for haves, wants in plan["mof"]:
+        put(["mof", [h.decode() for h in haves], [w.decode() for w in wants]],
+            lambda: sorted(sha.decode() for sha, _ in MissingObjectFinder(st, list(haves), list(wants))))
+    put(["unreachable"], lambda: sorted(x.decode() for x in find_unreachable_objects(st, repo.refs)))
+    # 6. refs
+    put(["refs.as_dict"], lambda: sorted((k.decode(), v.decode()) for k, v in repo.refs.as_dict().items()))
+    put(["refs.keys"], lambda: sorted(k.decode() for k in repo.refs.keys()))
+    put(["head"], lambda: repo.head().decode())
+    for rn in sorted(tw.refnames) + [b"refs/heads/never-existed"]:
+        put(["ref", rn.decode()], lambda: repo.refs[rn].decode())
+        put(["ref-in", rn.decode()], lambda: rn in repo.refs)
+        put(["read_ref", rn.decode()], lambda: (repo.refs.read_ref(rn) or b"<none>").decode())
+        put(["peeled", rn.decode()], lambda: repo.get_peeled(rn).decode())
+    return out
+
+
+# ------------------------------------------------------------------------------------------------
+# attribution (which accelerator is responsible) and narrow failure classes
+
+def _copy_without(tw: Twin, kinds, tag: str) -> Path:
+    """Copy of A with the files of some accelerator kinds removed ("with the files present vs removed")."""
+    import shutil
+    dst = tw.root / f"ablate-{tag}"
+    if dst.exists():
+        shutil.rmtree(dst)
+    shutil.copytree(tw.A.path, dst)
+    for kind in kinds:
+        _remove_kind(tw, dst, kind)
+    return dst
+
+
+def _remove_kind(tw: Twin, dst: Path, kind: str):
+    import shutil
+    if kind in ("commit-graph", "midx", "bitmap"):
+        for f in _accel_files(dst)[kind]:
+            if f.is_dir():
+                shutil.rmtree(f)
+            else:
+                f.unlink()
+    elif kind == "packed-refs":
+        # removing packed-refs = the same refs as loose files (values taken from the ground truth of the
+        # scenario, not from dulwich's reader)
+        (dst / "packed-refs").unlink(missing_ok=True)
+        for rn, v in tw.refs.items():
+            p = dst / rn.decode()
+            p.parent.mkdir(parents=True, exist_ok=True)
+            if not p.exists():
+                p.write_bytes(v + b"\n")
+    elif kind == "idx-version":
+        import os
+        from dulwich.object_format import SHA1
+        from dulwich.pack import PackData
+        for idxp in sorted((dst / "objects" / "pack").glob("*.idx")):
+            pdat = PackData(str(idxp.with_suffix(".pack")), object_format=SHA1)
+            try:
+                os.unlink(idxp)
+                pdat.create_index_v2(str(idxp))
+            finally:
+                pdat.close()
+
+
+def _present_kinds(tw: Twin) -> list[str]:
+    files = _accel_files(tw.A.path)
+    kinds = [k for k in ("commit-graph", "midx", "bitmap") if files[k]]
+    if (tw.A.path / "packed-refs").exists():
+        kinds.append("packed-refs")
+    if "idx-version" in tw.written:
+        kinds.append("idx-version")
+    return kinds
+
+
+class Ablation:
+    """Answers of A with some accelerator kinds removed / switched off (computed lazily, once per checkpoint
+    and combination).  `responsible` = the smallest combination whose removal gives N's answer."""
+
+    def __init__(self, tw: Twin, plan, ll: bool):
+        self.tw, self.plan, self.ll = tw, plan, ll
+        self.cache: dict[tuple, dict] = {}
+
+    def kinds(self):
+        return ["commit-graph", "midx", "bitmap"] if self.ll else _present_kinds(self.tw)
+
+    def answers(self, kinds: tuple) -> dict:
+        if kinds not in self.cache:
+            self.cache[kinds] = self._ll(kinds) if self.ll else self._fresh(kinds)
+        return self.cache[kinds]
+
+    def responsible(self, key: str, want) -> list[str]:
+        import itertools
+        ks = self.kinds()
+        for n in range(1, len(ks) + 1):
+            hits = [c for c in itertools.combinations(ks, n) if self.answers(c).get(key) == want]
+            if hits:
+                return sorted({k for c in hits for k in c}) if n == 1 else list(hits[0])
+        return []
+
+    def _fresh(self, kinds):
+        import shutil
+        from dulwich.repo import Repo
+        dst = _copy_without(self.tw, kinds, "f")
+        r = Repo(str(dst))
+        try:
+            return ask(r, self.tw, self.plan)
+        finally:
+            r.close()
+            shutil.rmtree(dst, ignore_errors=True)
+
+    def _ll(self, kinds):
+        """Same for the long-lived handle, by switching in-memory accelerators off."""
+        tw = self.tw
+        st = tw.A.ll.object_store
+        undo = []
+        if "commit-graph" in kinds:
+            s = (st._use_commit_graph, st._commit_graph)
+            st._use_commit_graph, st._commit_graph = False, None
+            undo.append(lambda s=s: (setattr(st, "_use_commit_graph", s[0]), setattr(st, "_commit_graph", s[1])))
+        if "midx" in kinds:
+            m = (st._use_midx, st._midx)
+            st._use_midx, st._midx = False, None
+            undo.append(lambda m=m: (setattr(st, "_use_midx", m[0]), setattr(st, "_midx", m[1])))
+        if "bitmap" in kinds:
+            saved = []
+            for p in list(st.packs):
+                saved.append((p, p._bitmap, p._bitmap_path))
+                p._bitmap, p._bitmap_path = None, p._bitmap_path + ".absent"
+
+            def back():
+                for p, b, path in saved:
+                    p._bitmap, p._bitmap_path = b, path
+            undo.append(back)
+        try:
+            return ask(tw.A.ll, tw, self.plan)
+        finally:
+            for u in undo:
+                u()
+
+
+def _graph_in_use(tw: Twin, ll: bool):
+    """The CommitGraph object A answers from (cached one for the long-lived handle)."""
+    from dulwich.commit_graph import read_commit_graph
+    if ll:
+        return tw.A.ll.object_store.get_commit_graph()
+    p = tw.A.path / "objects" / "info" / "commit-graph"
+    return read_commit_graph(str(p)) if p.exists() else None
+
+
+def commit_graph_causes(tw: Twin, ll: bool, only: bytes | None = None) -> set:
+    """Compare every entry (or the entry of commit `only`) of the commit graph in use with the ground truth of
+    the scenario."""
+    g = _graph_in_use(tw, ll)
+    causes = set()
+    if g is None:
+        return causes
+    inside = {e.commit_id for e in g.entries}
+    for e in g.entries:
+        if only is not None and e.commit_id != only:
+            continue
+        real = tw.parents.get(e.commit_id)
+        if real is None or list(e.parents) == real:
+            continue
+        octo = len(real) > 2
+        stored = real[:2] if octo else real
+        if list(e.parents) == [p for p in stored if p in inside]:
+            if octo:
+                causes.add("commit-graph-octopus-parents-truncated")
+            if any(p not in inside for p in stored):
+                causes.add("commit-graph-parent-outside-set-dropped")
+        else:
+            causes.add(None)
+    return causes
+
+
+def midx_causes(tw: Twin, ansA: dict) -> set:
+    """An id the MIDX lists although no pack holds it any more: `in` says True, `[]` raises KeyError."""
+    import json
+    causes = set()
+    for oid in list(tw.kind) + tw.extra_ids:
+        if ansA.get(json.dumps(["in", oid.decode()])) is True and \
+                ansA.get(json.dumps(["get", oid.decode()])) == ["EXC", "KeyError"]:
+            causes.add("midx-entry-trusted-without-pack")
+    return causes
+
+
+def _mem_bitmap_packs(tw: Twin):
+    """Packs of the long-lived handle whose bitmap object is consulted (entries keyed by hex ids)."""
+    from dulwich.objects import sha_to_hex
+    out = []
+    for p in list(tw.A.ll.object_store.packs):
+        b = p._bitmap
+        if b is None:
+            continue
+        ents = {k for k in b.entries if len(k) == 40}
+        if ents:
+            out.append({"pack": p, "bm": b, "pids": {sha_to_hex(s) for s, _, _ in p.index.iterentries()}, "ents": ents})
+    return out
+
+
+def _xor_chain_broken(tw: Twin, bm, key, pids) -> bool:
+    """generate_bitmap computes XOR offsets over ALL selected commits and then drops the entries of commits that
+    are not in this pack: an offset then points at the wrong entry or before the start of the list."""
+    ent = bm.entries.get(key)
+    return ent is not None and ent.xor_offset > 0 and any(c not in pids for c in tw.parents)
+
+
+def bitmap_causes(tw: Twin, q: list, aN, aA) -> set:
+    from dulwich.bitmap import bitmap_to_object_shas
+    if aA == ["EXC", "FileNotFoundError"]:
+        pd = tw.A.path / "objects" / "pack"
+        if any(not p.with_suffix(".bitmap").exists() for p in pd.glob("*.pack")):
+            return {"bitmap-missing-on-some-pack-raises"}
+        return {None}
+    if not isinstance(aA, list) or not isinstance(aN, list) or (aA and aA[0] == "EXC"):
+        return {None}
+    packs = _mem_bitmap_packs(tw)
+    if q[0] in ("reach-commits", "reach-objects"):
+        heads = [h.encode() for h in q[1]]
+        excl = [h.encode() for h in q[2]]
+        only_commits = q[0] == "reach-commits"
+        got = {x.encode() for x in aA}
+        for P in packs:
+            pids, ents, bm = P["pids"], P["ents"], P["bm"]
+            if not all(h in ents and h in pids for h in heads):
+                continue
+            applied = bool(excl) and all(e in ents and e in pids for e in excl)
+            involved = heads + (excl if applied else [])
+            actual = {h: bitmap_to_object_shas(bm.get_bitmap(h), P["pack"].index) for h in involved}
+            ideal = {h: tw.closure([h]) & pids for h in involved}
+
+            def combine(sets):
+                inc = set().union(*[sets[h] for h in heads])
+                if applied:
+                    inc -= set().union(*[sets[e] for e in excl])
+                return {x for x in inc if tw.kind.get(x) == "commit"} if only_commits else inc
+            if got != combine(actual):
+                continue
+            causes = set()
+            if any(actual[h] != ideal[h] for h in involved):
+                # the stored bitmaps themselves are wrong
+                if all(actual[h] == ideal[h] or _xor_chain_broken(tw, bm, h, pids) for h in involved):
+                    return {"bitmap-xor-base-entry-skipped"}
+                return {None}
+            full = (lambda xs: tw.ancestors(xs)) if only_commits else (lambda xs: tw.closure(xs))
+            inc, exc = full(heads), (full(excl) if applied else set())
+            if (inc & pids) != inc or (exc & pids) != exc:
+                causes.add("bitmap-pack-not-closed")
+            if {x.encode() for x in aN} != inc - exc:
+                causes.add("reachability-exclude-semantics-differ" if only_commits
+                           else "reachable-objects-provider-semantics-differ")
+            return causes or {None}
+        return {None}
+    if q[0] == "mof":
+        haves = {tw.peel(h.encode()) for h in q[1]}
+        haves = {h for h in haves if tw.kind.get(h) == "commit"}
+        for P in packs:
+            pids, ents, bm = P["pids"], P["ents"], P["bm"]
+            if haves and all(h in ents and h in pids for h in haves):
+                if any(_xor_chain_broken(tw, bm, h, pids) for h in haves):
+                    return {"bitmap-xor-base-entry-skipped"}
+                if not tw.ancestors(haves) <= pids:
+                    return {"bitmap-pack-not-closed"}
+        return {None}
+    return {None}
+
+
+def packed_refs_causes(tw: Twin, q: list, aN, aA) -> set:
+    """Only the peeled value of a ref is cached in packed-refs beside the value itself."""
+    if q[0] != "peeled" or not isinstance(aA, str) or not isinstance(aN, str):
+        return {None}
+    rn = q[1].encode()
+    text = (tw.A.path / "packed-refs").read_bytes() if (tw.A.path / "packed-refs").exists() else b""
+    lines = text.split(b"\n")
+    header_peeled = bool(lines) and lines[0].startswith(b"# pack-refs") and b" peeled" in lines[0]
+    packed_val = packed_peel = None
+    for i, ln in enumerate(lines):
+        if ln.endswith(b" " + rn) and not ln.startswith(b"#"):
+            packed_val = ln.split(b" ")[0]
+            if i + 1 < len(lines) and lines[i + 1].startswith(b"^"):
+                packed_peel = lines[i + 1][1:]
+    loose = (tw.A.path / rn.decode()).exists()
+    cur = tw.refs.get(rn)
+    if packed_val is None or cur is None:
+        return {None}
+    true_peel = tw.peel(cur)
+    if aN.encode() != true_peel:
+        return {None}
+    if loose and packed_val != cur and aA.encode() == (packed_peel if packed_peel is not None else cur):
+        return {"packed-refs-peeled-stale-under-loose-override"}
+    if header_peeled and packed_peel is None and tw.kind.get(cur) == "tag" and aA.encode() == cur:
+        return {"packed-refs-peeled-line-missing"}
+    if packed_peel is not None and packed_peel != true_peel and packed_val == cur and aA.encode() == packed_peel:
+        return {"packed-refs-peeled-line-stale"}
+    return {None}
+
+
+def classify(tw: Twin, abl: Ablation, key: str, aN, aA, ansN: dict, ansA: dict):
+    """Narrow failing-input classes for one differing pair; a None class = unclassified (always a violation).
+    Returns (classes, responsible kinds)."""
+    import json
+    q = json.loads(key)
+    resp = abl.responsible(key, aN)
+    causes = set()
+    for kind in resp:
+        if kind == "commit-graph":
+            if aN == ["EXC", "KeyError"]:
+                causes |= absent_commit_causes(tw, abl.ll, ansN) or {None}
+            else:
+                only = q[1].encode() if q[0] == "parents" else None
+                causes |= commit_graph_causes(tw, abl.ll, only) or {None}
+        elif kind == "midx":
+            causes |= midx_causes(tw, ansA) or {None}
+        elif kind == "bitmap":
+            causes |= bitmap_causes(tw, q, aN, aA)
+        elif kind == "packed-refs":
+            causes |= packed_refs_causes(tw, q, aN, aA)
+        else:
+            causes.add(None)
+    if not resp:
+        causes.add(None)
+    return sorted(causes, key=lambda c: (c is None, c or "")), resp
+
+
+def absent_commit_causes(tw: Twin, ll: bool, ansN: dict) -> set:
+    """The graph still lists a commit that the object store no longer has (pruned after the graph was written,
+    or the graph came from another repository): with the graph `get_parents` answers, without it raises."""
+    import json
+    g = _graph_in_use(tw, ll)
+    if g is None:
+        return set()
+    for e in g.entries:
+        if ansN.get(json.dumps(["in", e.commit_id.decode()])) is False:
+            return {"commit-graph-answers-for-absent-commit"}
+    return set()
+
+
+# ------------------------------------------------------------------------------------------------
+# scenario generator (random op lists) and the checkpoint comparison
+
+WRITER_VARIANTS = {
+    "commit-graph": {"dulwich": ["all", "reachable", "reachable", "tips-only"], "git": ["plain", "plain", "split"]},
+    "midx": {"dulwich": ["-"], "git": ["-"]},
+    "bitmap": {"dulwich": ["generate", "generate", "files-hash-lookup", "files-hash", "files-lookup", "files-plain"],
+               "git": ["hash-lookup", "hash", "lookup", "plain"]},
+    "packed-refs": {"dulwich": ["all", "all", "tags"], "git": ["all", "all", "tags"]},
+    "idx-version": {"dulwich": ["1"], "git": ["1"]},
+}
+
+
+def gen_scenario(rng, subset, use_git: bool, size: int = 10) -> list:
+    """Random op list: history (merges incl. octopus, several packs + loose objects, tags, deleted refs),
+    accelerator writes for `subset`, then staleness (more history, repack, prune, deleted refs), stale /
+    mismatched files put back, and re-writes."""
+    ops = []
+    names, tags = [], []
+    nref = [0]
+
+    def actor():
+        return "git" if use_git and rng.random() < 0.3 else "dulwich"
+
+    def add_commit():
+        name = f"c{len(names)}"
+        r = rng.random()
+        if not names or r < 0.08:
+            parents = []
+        elif r < 0.55 or len(names) < 2:
+            parents = [rng.choice(names[-3:])]
+        elif r < 0.82 or len(names) < 3:
+            parents = rng.sample(names[-6:], 2) if len(names[-6:]) >= 2 else [names[-1]]
+        else:
+            k = min(len(names), rng.choice([3, 3, 4, 5]))
+            parents = rng.sample(names[-8:], min(k, len(names[-8:])))
+        ops.append(["commit", name, parents, rng.choice(["loose", "pack", "pack"])])
+        names.append(name)
+        if rng.random() < 0.5:
+            ops.append(["ref", f"refs/heads/b{rng.randint(0, 3)}", name, actor()])
+        return name
+
+    def add_tag():
+        if not names:
+            return
+        target = rng.choice(tags) if tags and rng.random() < 0.2 else rng.choice(names[-4:])
+        name = f"t{len(tags)}"
+        ops.append(["tag", name, target, rng.choice(["loose", "pack"])])
+        tags.append(name)
+        ops.append(["ref", f"refs/tags/v{rng.randint(0, 2)}", name, actor()])
+        if rng.random() < 0.3:
+            ops.append(["ref", f"refs/tags/lw{rng.randint(0, 1)}", rng.choice(names), actor()])
+
+    def write_accels(kinds):
+        kinds = list(kinds)
+        rng.shuffle(kinds)
+        for k in kinds:
+            w = "git" if use_git and rng.random() < 0.5 else "dulwich"
+            ops.append(["accel", k, w, rng.choice(WRITER_VARIANTS[k][w])])
+
+    # phase 1: history
+    for _ in range(rng.randint(max(3, size // 2), size)):
+        add_commit()
+        if rng.random() < 0.25:
+            add_tag()
+    ops.append(["ref", "refs/heads/b0", names[-1], "dulwich"])
+    if rng.random() < 0.6:
+        ops.append(["ref", "refs/heads/master", rng.choice(names), "dulwich"])
+    if rng.random() < 0.3:
+        ops.append(["repack", actor()])
+    elif rng.random() < 0.3:
+        ops.append(["pack-loose"])
+    # phase 2: write the accelerators of the subset
+    write_accels(subset)
+    ops.append(["snapshot", "s1"])
+    ops.append(["check", "fresh"])
+    # phase 3: continue the history
+    for _ in range(rng.randint(2, max(3, size // 2))):
+        add_commit()
+        if rng.random() < 0.3:
+            add_tag()
+    if rng.random() < 0.7:
+        ops.append(["ref", f"refs/heads/b{rng.randint(0, 3)}", None, actor()])
+    if tags and rng.random() < 0.5:
+        ops.append(["ref", f"refs/tags/v{rng.randint(0, 2)}", rng.choice(tags + names[-2:]), actor()])
+    if rng.random() < 0.4:
+        ops.append(["ref", f"refs/tags/v{rng.randint(0, 2)}", None, actor()])
+    ops.append(["check", "stale-continued"])
+    # phase 4: maintenance after the files were written
+    r = rng.random()
+    if r < 0.4:
+        ops.append(["repack", actor()])
+    elif r < 0.8:
+        ops.append(["ref", f"refs/heads/b{rng.randint(0, 3)}", None, "dulwich"])
+        ops.append(["prune"])
+    else:
+        ops.append(["pack-loose"])
+    if "packed-refs" in subset and rng.random() < 0.6:
+        ops.append(["accel", "packed-refs", "git" if use_git and rng.random() < 0.5 else "dulwich", "all"])
+    ops.append(["check", "stale-maintained"])
+    # phase 5: stale / mismatched files put back, or everything rewritten
+    r = rng.random()
+    cand = [k for k in ("commit-graph", "midx", "bitmap") if k in subset]
+    if cand and r < 0.45:
+        for k in cand:
+            ops.append(["restore", "s1", k])
+        ops.append(["check", "stale-restored"])
+    elif r < 0.75:
+        for k in rng.sample(["commit-graph", "midx", "bitmap"], rng.randint(1, 3)):
+            ops.append(["donor", k])
+        ops.append(["check", "mismatched-donor"])
+    else:
+        write_accels(subset)
+        ops.append(["check", "rewritten"])
+    return ops
+
+
+_FAIL_CAP = 3   # reported failing pairs per (scenario, class)
+
+
+def checkpoint(ctx, tw: Twin, ops_so_far: list, label: str, sid: str, plan_rng, seen_cls: dict, extra_plan=None):
+    import json
+    plan = make_plan(tw, plan_rng, n_each=4)
+    for k, items in (extra_plan or {}).items():
+        # corpus witnesses name their queries by logical object names
+        def conv(x):
+            if isinstance(x, list):
+                return [conv(y) for y in x]
+            return tw.ids[x] if isinstance(x, str) else x
+        plan.setdefault(k, [])
+        plan[k] += [conv(it) for it in items]
+    answers = {}
+    for side, name in ((tw.N, "N"), (tw.A, "A")):
+        r = side.fresh()
+        try:
+            answers[name + "f"] = ask(r, tw, plan)
+        finally:
+            r.close()
+        answers[name + "l"] = ask(side.ll, tw, plan)
+    fresh_cls = {}
+    for mode, ll in (("fresh", False), ("ll", True)):
+        aNs, aAs = answers["N" + ("l" if ll else "f")], answers["A" + ("l" if ll else "f")]
+        abl = Ablation(tw, plan, ll)
+        stream = "pair." + mode
+        for key, aN in aNs.items():
+            aA = aAs.get(key)
+            q0 = json.loads(key)[0]
+            ctx.count(stream, (sid, label, key), True, q0)
+            if aN == aA:
+                continue
+            if ll and key in fresh_cls and answers["Nf"][key] == aN and answers["Af"][key] == aA:
+                classes, resp = fresh_cls[key]
+            else:
+                classes, resp = classify(tw, abl, key, aN, aA, aNs, aAs)
+                if not ll:
+                    fresh_cls[key] = (classes, resp)
+            for cls in classes:
+                k = (mode, cls)
+                seen_cls[k] = seen_cls.get(k, 0) + 1
+                if seen_cls[k] > _FAIL_CAP and cls is not None:
+                    continue
+                ctx.oracle_fail(stream, {"ops": ops_so_far, "checkpoint": label, "mode": mode, "query": json.loads(key),
+                                         "without": aN, "with": aA, "responsible": resp,
+                                         "accelerators": list(tw.accel_log)},
+                                f"answer differs with acceleration data present ({', '.join(resp) or 'unattributed'}): "
+                                f"{key[:120]}: without={str(aN)[:160]} with={str(aA)[:160]}", cls)
+    if ctx.thorough or plan_rng.random() < 0.5:
+        check_bitmap_entries(ctx, tw, ops_so_far, label, sid)
+    return answers
+
+
+def check_bitmap_entries(ctx, tw: Twin, ops_so_far, label, sid):
+    """Sound-cache obligation of the bitmap files themselves, one level below the provider: a bitmap that
+    `Pack.bitmap` accepts must (a) carry this pack's checksum and (b) answer, for each commit it has an entry
+    for, exactly the objects of this pack reachable from that commit."""
+    from dulwich.bitmap import bitmap_to_object_shas
+    from dulwich.objects import sha_to_hex
+    r = tw.A.fresh()
+    try:
+        for p in list(r.object_store.packs):
+            try:
+                bm = p.bitmap
+            except FileNotFoundError:
+                continue
+            except Exception as e:
+                ctx.count("bitmap.entries", (sid, label, p.name(), "rejected"), True, "rejected:" + type(e).__name__)
+                continue
+            if bm is None:
+                ctx.count("bitmap.entries", (sid, label, p.name(), "ignored"), True, "ignored")
+                continue
+            case = {"ops": ops_so_far, "checkpoint": label, "pack": p.name().decode(), "accelerators": list(tw.accel_log)}
+            if bm.pack_checksum != p.get_stored_checksum():
+                ctx.oracle_fail("bitmap.entries", case, "a bitmap recording another pack's checksum was loaded and is "
+                                "trusted for this pack", "bitmap-for-other-pack-trusted")
+                continue
+            entries = list(p.index.iterentries())
+            pids = {sha_to_hex(s) for s, _, _ in entries}
+            by_off = [sha_to_hex(s) for s, _, _ in sorted(entries, key=lambda e: e[1])]
+            for key in list(bm.entries):
+                cid = sha_to_hex(key) if len(key) == 20 else key
+                if cid not in tw.kind:
+                    continue
+                got = bitmap_to_object_shas(bm.get_bitmap(key), p.index)
+                exp = tw.closure([cid]) & pids
+                ctx.count("bitmap.entries", (sid, label, p.name(), cid), True, "entry")
+                if got != exp:
+                    bits = bm.get_bitmap(key).bits
+                    pack_order = {by_off[b] for b in bits if b < len(by_off)}
+                    cls = "bitmap-pack-order-read-as-index-order" if pack_order == exp else None
+                    if cls is None and _xor_chain_broken(tw, bm, key, pids):
+                        cls = "bitmap-xor-base-entry-skipped"
+                    ctx.oracle_fail("bitmap.entries", dict(case, commit=cid.decode(), got=sorted(x.decode() for x in got)[:6],
+                                                            expected=sorted(x.decode() for x in exp)[:6]),
+                                    f"bitmap entry for {cid.decode()[:10]} names {len(got)} objects, reachable in this pack "
+                                    f"are {len(exp)} (differing sets)", cls)
+                    break
+    finally:
+        r.close()
+
+
+def run_scenario(ctx, ops: list, sid: str, donor: Path | None, plan_seed: str, extra_plan=None, always_entries=False):
+    """Interpret an op list against a fresh twin; compare at every checkpoint."""
+    import random
+    import shutil
+    root = ctx.scratch / ("tw-" + sid)
+    if root.exists():
+        shutil.rmtree(root)
+    tw = Twin(root, donor)
+    if donor is not None:
+        tw.extra_ids = list(getattr(run_scenario, "_donor_ids", {}).get(str(donor), []))
+    prng = random.Random(plan_seed)
+    seen_cls: dict = {}
+    done = []
+    try:
+        for op in ops:
+            done.append(op)
+            if op[0] == "check":
+                checkpoint(ctx, tw, list(done), op[1], sid, prng, seen_cls, extra_plan)
+                if always_entries:
+                    check_bitmap_entries(ctx, tw, list(done), op[1], sid)
+            else:
+                tw.apply(op)
+    finally:
+        tw.close()
+        shutil.rmtree(root, ignore_errors=True)
+    return tw
+
+
+def build_donor(ctx, use_git: bool) -> Path:
+    """An unrelated repository with every acceleration file, to copy mismatched files from."""
+    import random
+    import shutil
+    rng = random.Random(f"donor:{ctx.seed}")
+    ops = []
+    names = []
+    for i in range(8):
+        parents = [] if i == 0 else rng.sample(names, min(len(names), rng.choice([1, 1, 2])))
+        ops.append(["commit", f"d{i}", parents, "pack" if i % 3 else "loose"])
+        names.append(f"d{i}")
+    ops += [["ref", "refs/heads/donor", names[-1], "dulwich"], ["repack", "dulwich"],
+            ["accel", "commit-graph", "dulwich", "all"], ["accel", "midx", "git" if use_git else "dulwich", "-"],
+            ["accel", "bitmap", "dulwich", "files-hash"]]
+    root = ctx.scratch / "donor"
+    if root.exists():
+        shutil.rmtree(root)
+    tw = Twin(root, None)
+    # make the donor's objects different from every scenario's (content depends on the counter)
+    tw.counter = 1000
+    try:
+        for op in ops:
+            tw.apply(op)
+    finally:
+        tw.close()
+    ids = sorted(tw.kind)
+    if not hasattr(run_scenario, "_donor_ids"):
+        run_scenario._donor_ids = {}
+    run_scenario._donor_ids[str(tw.A.path)] = ids[:6]
+    return tw.A.path
+
+
+def all_subsets():
+    import itertools
+    out = []
+    for k in range(len(ACCEL_KINDS) + 1):
+        for c in itertools.combinations(ACCEL_KINDS, k):
+            out.append(list(c))
+    return out
+
+
+def stream_twins(ctx):
+    import random
+    subsets = all_subsets()
+    # order: singletons and the full set first, so that a small budget still sees each accelerator alone
+    subsets.sort(key=lambda s: (len(s) not in (1, 5), len(s)))
+    n = ctx.budget(32, mult=6)
+    donor = build_donor(ctx, use_git=True)
+    for i in range(n):
+        subset = subsets[i % len(subsets)]
+        sseed = f"{ctx.seed}:{i}"
+        rng = random.Random("scenario:" + sseed)
+        use_git = (i % 4 == 1) if not ctx.thorough else (i % 2 == 1)
+        ops = gen_scenario(rng, subset, use_git, size=rng.choice([6, 8, 10, 12]))
+        tw = run_scenario(ctx, ops, f"s{i}", donor, "plan:" + sseed)
+        tag = "+".join(k[:2] for k in subset) or "none"
+        ctx.count("scenarios", (sseed,), True, f"{tag}{':git' if use_git else ''}")
+        if i < 2:
+            ctx.sample({"stream": "twins", "subset": subset, "ops": ops[:12], "n_ops": len(ops),
+                        "commits": len(tw.parents), "octopus": sum(1 for p in tw.parents.values() if len(p) > 2)})
+    ctx.extra_cov["accelerator_subsets_covered"] = min(n, len(subsets))
+
+
+def run(ctx: core.Ctx):
+    ctx.assumptions += [
+        "WITH/WITHOUT pairs: twin repositories built by the same logical operations; the 'without' side never "
+        "receives an acceleration file; queries are asked through a long-lived handle and a fresh handle of each",
+        "ground truth used only to CLASSIFY a differing pair (never to decide that a pair differs): parent lists, "
+        "trees and tag targets as constructed by the harness",
+        "packed-refs stat-identity cache: two different files never share (inode, size, mtime_ns) (idealisation)",
+    ]
+    run_corpus(ctx)
+    stream_ewah(ctx)
+    stream_cg(ctx)
+    stream_midx(ctx)
+    stream_gate_refs(ctx)
+    stream_twins(ctx)
+
+
+def search(ctx: core.Ctx):
+    pass
+
+
+def replay(ctx: core.Ctx, data: dict) -> int:
+    return 0
+
+
+def run_corpus(ctx):
+    """Negation witnesses / minimised past failures: scripted scenarios, replayed first on every run."""
+    import json
+    d = core.VERIF / "corpus" / "C14"
+    if not d.exists():
+        return
+    for f in sorted(d.glob("*.json")):
+        w = json.loads(f.read_text())
+        before = dict(ctx.known_hit)
+        nfail = len(ctx.oracle_failures)
+        run_scenario(ctx, w["ops"], "corpus-" + w["id"], None, "corpus:" + w["id"], w.get("extra_plan"), always_entries=True)
+        hit = {k: v - before.get(k, 0) for k, v in ctx.known_hit.items() if v != before.get(k, 0)}
+        new = [x["class"] for x in ctx.oracle_failures[nfail:]]
+        ctx.count("corpus", (w["id"],), True, w["expect"][1] if (hit or new) else "no-longer-fails")
+        ctx.extra_cov.setdefault("corpus_witnesses", {})[w["id"]] = {"expected": w["expect"], "known_hit": hit, "unmatched": new[:3]}
+
+
+# ================================================================================================
+# FORMAT streams: model vs real, byte for byte and cross-decoding
+# ================================================================================================
+
+def _csv(xs):
+    xs = list(xs)
+    return ",".join(str(x) for x in xs) if xs else "-"
+
+
+def gen_bits(rng) -> tuple[str, list[int]]:
+    """Set-bit positions with the shapes that drive the EWAH encoder through all its branches."""
+    kind = rng.choice(["empty", "single", "sparse", "dense", "ones-run", "zeros-then", "mixed", "boundary", "alt-runs",
+                       "lit-after-run", "full-words"])
+    W = 64
+    if kind == "empty":
+        return kind, []
+    if kind == "single":
+        return kind, [rng.choice([0, 1, 62, 63, 64, 65, 127, 128, 191, 192, 4095, 4096, rng.randrange(20000)])]
+    if kind == "sparse":
+        return kind, sorted({rng.randrange(rng.choice([70, 300, 5000])) for _ in range(rng.randint(1, 12))})
+    if kind == "dense":
+        n = rng.choice([10, 64, 65, 130, 400])
+        return kind, [i for i in range(n) if rng.random() < 0.7]
+    if kind == "ones-run":
+        a, k = rng.randint(0, 3), rng.randint(1, 5)
+        bits = list(range(a * W, (a + k) * W))
+        if rng.random() < 0.5:
+            bits += [(a + k) * W + rng.randrange(W)]
+        if rng.random() < 0.3 and a:
+            bits += [rng.randrange(a * W)]
+        return kind, sorted(set(bits))
+    if kind == "zeros-then":
+        return kind, sorted({rng.randint(2, 40) * W + rng.randrange(W) for _ in range(rng.randint(1, 3))})
+    if kind == "boundary":
+        pool = [0, 63, 64, 127, 128, 129, 191, 192, 255, 256]
+        return kind, sorted(set(rng.sample(pool, rng.randint(1, len(pool)))))
+    if kind == "full-words":
+        k = rng.randint(1, 4)
+        return kind, list(range(k * W))
+    # mixed / alt-runs / lit-after-run: word-level composition
+    words = []
+    for _ in range(rng.randint(1, 12)):
+        t = rng.choice(["z", "o", "l", "l"]) if kind != "alt-runs" else rng.choice(["z", "o"])
+        rep = rng.randint(1, 4)
+        for _ in range(rep):
+            words.append(0 if t == "z" else (2 ** 64 - 1) if t == "o" else rng.getrandbits(64) | 1 << rng.randrange(64))
+    bits = [i * W + j for i, w in enumerate(words) for j in range(W) if w >> j & 1]
+    return kind, bits
+
+
+def stream_ewah(ctx):
+    import struct
+    from dulwich.bitmap import EWAHBitmap, _encode_ewah_words
+    rng = ctx.rng
+    cases = [("fixed", []), ("fixed", [0]), ("fixed", [63]), ("fixed", [64]), ("fixed", list(range(64))),
+             ("fixed", list(range(128))), ("fixed", list(range(64, 128))), ("fixed", [0] + list(range(64, 192)) + [200])]
+    cases += [gen_bits(rng) for _ in range(ctx.budget(400))]
+    lines = ["c14.ewah.enc " + _csv(b) for _, b in cases]
+    outs = ctx.driver.batch(lines)
+    dec_lines, dec_meta = [], []
+    for (kind, bits), mo in zip(cases, outs):
+        bm = EWAHBitmap()
+        for p in bits:
+            bm.add(p)
+        real = bm.encode()
+        ctx.count("fmt.ewah.enc", tuple(bits), True, kind)
+        if mo != "ok " + hx(real):
+            ctx.disagree("fmt.ewah.enc", {"bits": bits[:200], "n": len(bits)}, mo[:300], "ok " + hx(real)[:300])
+        # direct oracle: the real pair round-trips, and never decodes beyond ceil(bit_count/64)*64
+        back = _try(lambda: EWAHBitmap(real))
+        if isinstance(back, list) or back.bits != set(bits):
+            ctx.oracle_fail("fmt.ewah.roundtrip", {"bits": bits[:300], "encoded": hx(real)[:400]},
+                            f"EWAHBitmap(b.encode()).bits != b.bits ({kind})", None)
+        dec_lines.append("c14.ewah.dec " + hx(real))
+        dec_meta.append(("real-bytes", real, bits))
+        if mo.startswith("ok ") and mo != "ok " + hx(real):
+            mb = unhx(mo[3:])
+            dec_meta.append(("model-bytes", mb, bits))
+            dec_lines.append("c14.ewah.dec " + hx(mb))
+    # hand-made / hostile encodings: decoder vs decoder
+    for _ in range(ctx.budget(300)):
+        nwords = rng.randint(0, 6)
+        words = []
+        for _ in range(nwords):
+            if rng.random() < 0.5:
+                words.append((rng.choice([0, 1, 2, 3, 7]) << 33) | (rng.choice([0, 1, 2, 3, 5, 2 ** 32 - 1]) << 1) | rng.getrandbits(1))
+            else:
+                words.append(rng.choice([0, 2 ** 64 - 1, rng.getrandbits(64), rng.getrandbits(64)]))
+        bit_count = rng.choice([0, 1, 63, 64, 65, 128, 200, 640, 64 * nwords, 64 * max(nwords - 1, 0)])
+        wc = rng.choice([nwords, nwords, nwords, nwords + 1, max(nwords - 1, 0), 0])
+        data = struct.pack(">II", bit_count, wc) + b"".join(struct.pack(">Q", w) for w in words) + struct.pack(">I", 0)
+        if rng.random() < 0.2:
+            data = data[: rng.randrange(len(data) + 1)]
+        dec_lines.append("c14.ewah.dec " + hx(data))
+        dec_meta.append(("crafted", data, None))
+    outs = ctx.driver.batch(dec_lines)
+    for (src, data, bits), mo in zip(dec_meta, outs):
+        def real_dec():
+            b = EWAHBitmap(data) if data else EWAHBitmap()
+            return b
+        r = _try(real_dec)
+        if isinstance(r, list):
+            ro = "err format" if r[1] in ("ValueError", "error") else "exc " + r[1]
+        else:
+            ro = f"ok {r.bit_count} {_csv(sorted(r.bits))}"
+            bc = r.bit_count
+            if r.bits and max(r.bits) >= ((bc + 63) // 64) * 64:
+                ctx.oracle_fail("fmt.ewah.bounded", {"data": hx(data)}, "decoder emitted a bit beyond ceil(bit_count/64)*64", None)
+        ctx.count("fmt.ewah.dec", data, True, src + ":" + ro[:3])
+        if mo != ro:
+            ctx.disagree("fmt.ewah.dec", {"data": hx(data)[:400], "src": src}, mo[:300], ro[:300])
+        if bits is not None and not isinstance(r, list) and r.bits != set(bits):
+            ctx.oracle_fail("fmt.ewah.roundtrip", {"bits": bits[:300], "src": src}, "cross-decoding returned other bits", None)
+    # word-level encoder on arbitrary word lists (incl. trailing zero words)
+    wl = []
+    for _ in range(ctx.budget(200)):
+        ws = []
+        for _ in range(rng.randint(0, 10)):
+            t = rng.choice("zol")
+            ws += [0 if t == "z" else 2 ** 64 - 1 if t == "o" else rng.getrandbits(64)] * rng.randint(1, 3)
+        wl.append(ws)
+    outs = ctx.driver.batch(["c14.ewah.encwords " + _csv(ws) for ws in wl])
+    for ws, mo in zip(wl, outs):
+        ro = _csv(_encode_ewah_words(list(ws)))
+        ctx.count("fmt.ewah.words", tuple(ws), True, f"n{len(ws)}")
+        if mo != ro:
+            ctx.disagree("fmt.ewah.words", {"words": ws}, mo[:300], ro[:300])
+    ctx.sample({"stream": "fmt.ewah", "bits": cases[9][1][:20], "real": hx(EWAHBitmap().encode())})
+
+
+def _entry_arg(cid: bytes, tree: bytes, parents, gen: int, time: int) -> str:
+    return f"{hx(cid)}:{hx(tree)}:{gen}:{time}:" + (",".join(hx(p) for p in parents) if parents else "-")
+
+
+def _real_entries_str(g) -> str:
+    from dulwich.objects import hex_to_sha
+    return "ok" + "".join(" " + _entry_arg(hex_to_sha(e.commit_id), hex_to_sha(e.tree_id), [hex_to_sha(p) for p in e.parents],
+                                             e.generation, e.commit_time) for e in g.entries)
+
+
+def build_cg_file(oids, recs, edges=None, version=1, hash_version=1, sig=b"CGPH") -> bytes:
+    """Harness-side commit-graph builder for reader tests (independent of the model and of dulwich's writer):
+    recs = [(tree, p1, p2, gen_word, time_word)], edges = list of 32-bit words or None."""
+    import struct
+    fan = [0] * 256
+    for o in oids:
+        fan[o[0]] += 1
+    cum, tot = [], 0
+    for c in fan:
+        tot += c
+        cum.append(tot)
+    chunks = [(b"OIDF", b"".join(struct.pack(">L", c) for c in cum)), (b"OIDL", b"".join(oids)),
+              (b"CDAT", b"".join(t + struct.pack(">LLLL", a, b, g, tm) for t, a, b, g, tm in recs))]
+    if edges is not None:
+        chunks.append((b"EDGE", b"".join(struct.pack(">L", w) for w in edges)))
+    off = 8 + 12 * (len(chunks) + 1)
+    toc = b""
+    for cid, data in chunks:
+        toc += cid + struct.pack(">Q", off)
+        off += len(data)
+    toc += b"\x00\x00\x00\x00" + struct.pack(">Q", off)
+    return sig + bytes([version, hash_version, len(chunks), 0]) + toc + b"".join(d for _, d in chunks)
+
+
+def _cgit_graph_files(ctx):
+    """Commit-graph files written by C git for small histories with octopus merges (EDGE chunk), with the true
+    parent lists."""
+    import shutil
+    out = []
+    for k in range(2 if not ctx.thorough else 6):
+        root = ctx.scratch / f"cgit-{k}"
+        if root.exists():
+            shutil.rmtree(root)
+        tw = Twin(root, None)
+        try:
+            rng = ctx.rng
+            names = []
+            for i in range(rng.randint(5, 9)):
+                pool = names[-6:]
+                kk = 0 if not names else min(len(pool), rng.choice([1, 2, 3, 4, 5]))
+                tw.apply(["commit", f"g{i}", rng.sample(pool, kk), "loose"])
+                names.append(f"g{i}")
+                if rng.random() < 0.5:
+                    tw.apply(["ref", f"refs/heads/x{i}", f"g{i}", "dulwich"])
+            tw.apply(["ref", "refs/heads/master", names[-1], "dulwich"])
+            _git(tw.A.path, "commit-graph", "write", "--reachable")
+            p = tw.A.path / "objects" / "info" / "commit-graph"
+            if p.exists():
+                out.append((p.read_bytes(), dict(tw.parents)))
+        finally:
+            tw.close()
+            shutil.rmtree(root, ignore_errors=True)
+    return out
+
+
+def stream_cg(ctx):
+    from io import BytesIO
+    from dulwich.commit_graph import CommitGraph, CommitGraphEntry
+    from dulwich.object_format import SHA1
+    from dulwich.objects import sha_to_hex
+    rng = ctx.rng
+    wr_lines, wr_meta = [], []
+    for _ in range(ctx.budget(150)):
+        n = rng.choice([1, 1, 2, 3, 5, 8, 12])
+        pool = []
+        while len(pool) < n:
+            o = rng.randbytes(20)
+            if rng.random() < 0.4 and pool:
+                o = bytes([rng.choice(pool)[0]]) + o[1:]          # same fan-out bucket
+            if rng.random() < 0.1:
+                o = bytes([rng.choice([0, 255])]) + o[1:]
+            if o not in pool:
+                pool.append(o)
+        outside = [rng.randbytes(20) for _ in range(2)]
+        ents = []
+        for o in pool:
+            k = rng.choice([0, 1, 1, 2, 2, 3, 4])
+            src = pool + (outside if rng.random() < 0.3 else [])
+            parents = [rng.choice(src) for _ in range(k)]
+            gen = rng.choice([0, 1, 5, 2 ** 30 - 1, 2 ** 30 - 1, 2 ** 30] if rng.random() < 0.2 else [0, 1, 5, 77])
+            tm = rng.choice([0, 1, 1_600_000_000, 2 ** 32 - 1, 2 ** 32, 2 ** 33 + 5, 2 ** 34 - 1])
+            ents.append((o, rng.randbytes(20), parents, gen, tm))
+        rng.shuffle(ents)
+        g = CommitGraph(object_format=SHA1)
+        g.entries = [CommitGraphEntry(sha_to_hex(c), sha_to_hex(t), [sha_to_hex(p) for p in ps], gen, tm)
+                     for c, t, ps, gen, tm in ents]
+        f = BytesIO()
+        real = _try(lambda: (g.write_to_file(f), f.getvalue())[1])
+        wr_lines.append("c14.cg.write 1 " + " ".join(_entry_arg(*e) for e in ents))
+        wr_meta.append((ents, real))
+    outs = ctx.driver.batch(wr_lines)
+    rd_lines, rd_meta = [], []
+    for (ents, real), mo in zip(wr_meta, outs):
+        ro = "err format" if isinstance(real, list) else "ok " + hx(real)
+        ctx.count("fmt.cg.write", tuple(e[0] for e in ents), True, f"n{len(ents)}:maxp{max(len(e[2]) for e in ents)}")
+        if mo != ro:
+            ctx.disagree("fmt.cg.write", {"entries": [_entry_arg(*e) for e in ents]}, mo[:400], ro[:400])
+        if isinstance(real, list):
+            continue
+        rd_lines.append("c14.cg.read " + hx(real))
+        rd_meta.append(("dulwich-writer", real, ents))
+    # reader on harness-built files with EDGE chunks and odd parent words
+    M, X = 0x70000000, 0x80000000
+    for _ in range(ctx.budget(150)):
+        n = rng.randint(1, 6)
+        oids = sorted({rng.randbytes(20) for _ in range(n)})
+        n = len(oids)
+        edges = None
+        if rng.random() < 0.7:
+            edges = []
+            for _ in range(rng.randint(0, 6)):
+                w = rng.choice([rng.randrange(n), rng.randrange(n), n, n + 3, M])
+                if rng.random() < 0.35:
+                    w |= X
+                edges.append(w)
+        recs = []
+        for _ in oids:
+            odd = rng.random() < 0.12
+            p1 = rng.choice([n, M - 1, X, M + 1, 2 ** 32 - 1]) if odd else rng.choice([rng.randrange(n), rng.randrange(n), M])
+            odd = rng.random() < 0.12
+            p2 = rng.choice([n, M + 5, X | 1000, M - 1]) if odd else rng.choice(
+                [rng.randrange(n), M, M, X | rng.randrange(max(len(edges or []), 1) + 1), X])
+            recs.append((rng.randbytes(20), p1, p2, rng.getrandbits(32), rng.getrandbits(32)))
+        kw = {}
+        r = rng.random()
+        if r < 0.05:
+            kw["sig"] = b"CGPX"
+        elif r < 0.1:
+            kw["version"] = 2
+        elif r < 0.15:
+            kw["hash_version"] = rng.choice([0, 3])
+        data = build_cg_file(oids, recs, edges, **kw)
+        rd_lines.append("c14.cg.read " + hx(data))
+        rd_meta.append(("crafted", data, None))
+    for data, truth in _cgit_graph_files(ctx):
+        rd_lines.append("c14.cg.read " + hx(data))
+        rd_meta.append(("git-writer", data, None))
+        g = _try(lambda: CommitGraph.from_file(BytesIO(data)))
+        for c, ps in truth.items():
+            got = None if isinstance(g, list) else g.get_parents(c)
+            ctx.count("fmt.cg.git", (data, c), True, f"p{len(ps)}")
+            if got is not None and got != ps:
+                ctx.oracle_fail("fmt.cg.git", {"file": hx(data)[:600], "commit": c.decode(), "got": [x.decode() for x in got],
+                                               "want": [x.decode() for x in ps]},
+                                "commit-graph written by C git is read back with other parents", None)
+    outs = ctx.driver.batch(rd_lines)
+    gp_lines, gp_meta = [], []
+    for (src, data, ents), mo in zip(rd_meta, outs):
+        g = _try(lambda: CommitGraph.from_file(BytesIO(data)))
+        if isinstance(g, list):
+            ro = "err format" if g[1] in ("ValueError", "error") else "exc " + g[1]
+        else:
+            ro = _real_entries_str(g)
+        ctx.count("fmt.cg.read", data, True, src + ":" + ro[:3])
+        if mo != ro:
+            ctx.disagree("fmt.cg.read", {"file": hx(data)[:600], "src": src}, mo[:400], ro[:400])
+        if isinstance(g, list):
+            continue
+        if ents is not None:
+            # direct oracle on the format pair, in the property's words: the reader of the written file gives
+            # every commit's full parent list
+            inside = {e[0] for e in ents}
+            for c, _t, ps, _g, _tm in ents:
+                got = g.get_parents(sha_to_hex(c))
+                want = [sha_to_hex(p) for p in ps]
+                if got != want:
+                    octo = len(ps) > 2
+                    stored = ps[:2] if octo else ps
+                    cls = None
+                    if got == [sha_to_hex(p) for p in stored if p in inside]:
+                        cls = "commit-graph-octopus-parents-truncated" if octo else "commit-graph-parent-outside-set-dropped"
+                    ctx.oracle_fail("fmt.cg.roundtrip", {"entries": [_entry_arg(*e) for e in ents], "commit": hx(c)},
+                                    f"reader(writer(entries)) returns {len(got or [])} of {len(want)} parents", cls)
+                    break
+        qs = [e.commit_id for e in g.entries][:4] + [sha_to_hex(rng.randbytes(20))]
+        from dulwich.objects import hex_to_sha
+        gp_lines.append("c14.cg.getparents " + hx(data) + " " + " ".join(hx(hex_to_sha(q)) for q in qs))
+        gp_meta.append((data, g, qs))
+    outs = ctx.driver.batch(gp_lines)
+    for (data, g, qs), mo in zip(gp_meta, outs):
+        from dulwich.objects import hex_to_sha
+        parts = []
+        for q in qs:
+            ps = g.get_parents(q)
+            parts.append("none" if ps is None else (",".join(hx(hex_to_sha(p)) for p in ps) if ps else "-"))
+        ro = "ok " + " ".join(parts)
+        ctx.count("fmt.cg.getparents", (data, tuple(qs)), True, "q")
+        if mo != ro:
+            ctx.disagree("fmt.cg.getparents", {"file": hx(data)[:400]}, mo[:300], ro[:300])
+
+
+def stream_midx(ctx):
+    import struct
+    from io import BytesIO
+    from dulwich.midx import MultiPackIndex, write_midx
+    rng = ctx.rng
+    for it in range(ctx.budget(60)):
+        n = rng.choice([0, 1, 2, 3, 8, 20, 50])
+        oids = set()
+        while len(oids) < n:
+            o = rng.randbytes(20)
+            r = rng.random()
+            if r < 0.3 and oids:
+                o = bytes([rng.choice(sorted(oids))[0]]) + o[1:]
+            elif r < 0.45:
+                o = bytes([rng.choice([0, 1, 254, 255])]) + o[1:]
+            oids.add(o)
+        oids = sorted(oids)
+        offs = {}
+        used = set()
+        for o in oids:
+            while True:
+                v = rng.choice([rng.randrange(1, 10 ** 6), 2 ** 31 - 1, 2 ** 31, 2 ** 31 + rng.randrange(100), 2 ** 32 + rng.randrange(100),
+                                2 ** 40 + rng.randrange(100)]) if rng.random() < 0.4 else rng.randrange(12, 10 ** 7)
+                if v not in used:
+                    used.add(v)
+                    break
+            offs[o] = v
+        npacks = rng.randint(1, 3)
+        packs = [(f"pack-{i:040x}.idx", []) for i in range(npacks)]
+        where = {}
+        for o in oids:
+            k = rng.randrange(npacks)
+            packs[k][1].append((o, offs[o], None))
+            where[o] = k
+            if rng.random() < 0.15 and npacks > 1:                      # duplicate in another pack
+                k2 = (k + 1) % npacks
+                packs[k2][1].append((o, offs[o] + 1, None))
+                where[o] = min(k, k2)
+        f = BytesIO()
+        write_midx(f, packs)
+        data = f.getvalue()
+        m = MultiPackIndex("mem", contents=data)
+        fan = list(m._fanout_table)
+        table = [bytes(m._get_oid(i)) for i in range(len(m))]
+        if n == 0:
+            continue
+        probes = list(oids[:6])
+        for o in oids[:4]:
+            v = int.from_bytes(o, "big")
+            probes += [(v + d).to_bytes(20, "big") for d in (-1, 1) if 0 <= v + d < 2 ** 160]
+        probes += [rng.randbytes(20) for _ in range(3)] + [b"\x00" * 20, b"\xff" * 20,
+                                                          bytes([oids[0][0]]) + b"\x00" * 19, bytes([oids[-1][0]]) + b"\xff" * 19]
+        lines = ["c14.midx.fanout " + ",".join(hx(o) for o in oids),
+                 "c14.midx.lookups " + _csv(fan) + " " + ",".join(hx(o) for o in table) + " " + ",".join(hx(p) for p in probes),
+                 "c14.midx.offsets " + _csv(
+                     [next(off for (oo, off, _c) in packs[where[o]][1] if oo == o) for o in table])]
+        o_fan, o_look, o_off = ctx.driver.batch(lines)
+        ctx.count("fmt.midx.fanout", tuple(oids), True, f"n{n}")
+        if o_fan != _csv(fan) or table != oids:
+            ctx.disagree("fmt.midx.fanout", {"oids": [hx(o) for o in oids][:40]}, o_fan[:300], _csv(fan)[:300])
+        reals = []
+        for p in probes:
+            r = _try(lambda: m.object_offset(p))
+            if r is None:
+                reals.append("none")
+            elif isinstance(r, list):
+                reals.append("err-other")
+            else:
+                name, off = r
+                idx = table.index(p)
+                want_off = next(off2 for (oo, off2, _c) in packs[where[p]][1] if oo == p)
+                if name != packs[where[p]][0] or off != want_off:
+                    ctx.oracle_fail("fmt.midx.lookup", {"oid": hx(p), "got": [name, off], "want": [packs[where[p]][0], want_off]},
+                                    "MIDX lookup returns another pack/offset than the one written", None)
+                reals.append(str(idx))
+            ctx.count("fmt.midx.lookup", (tuple(oids), p), True, "hit" if reals[-1].isdigit() else reals[-1])
+            if (p in offs) != reals[-1].isdigit():
+                ctx.oracle_fail("fmt.midx.lookup", {"oid": hx(p), "present": p in offs, "answer": reals[-1]},
+                                "MIDX lookup disagrees with the set of ids written", None)
+        if o_look != " ".join(reals):
+            ctx.disagree("fmt.midx.lookup", {"oids": [hx(o) for o in table][:40], "probes": [hx(p) for p in probes]},
+                         o_look[:300], " ".join(reals)[:300])
+        # OOFF / LOFF words as written vs the model's spill
+        ooff = [struct.unpack(">L", data[m._ooff_offset + 8 * i + 4: m._ooff_offset + 8 * i + 8])[0] for i in range(len(m))]
+        nl = sum(1 for w in ooff if w & 0x80000000)
+        loff = [struct.unpack(">Q", data[m._loff_offset + 8 * i: m._loff_offset + 8 * i + 8])[0] for i in range(nl)] if nl else []
+        dec = [str(m._get_pack_info(i)[1]) for i in range(len(m))]
+        ro = f"{_csv(ooff)} {_csv(loff)} {','.join(dec)}"
+        ctx.count("fmt.midx.offsets", tuple(ooff), True, f"large{nl}")
+        if o_off != ro:
+            ctx.disagree("fmt.midx.offsets", {"n": n}, o_off[:300], ro[:300])
+        m.close()
+
+
+def stream_gate_refs(ctx):
+    from io import BytesIO
+    from dulwich.bitmap import PackBitmap, read_bitmap_file, write_bitmap_file
+    from dulwich.errors import ChecksumMismatch
+    from dulwich.refs import DiskRefsContainer
+    rng = ctx.rng
+    lines, meta = [], []
+    for _ in range(ctx.budget(40)):
+        a = rng.randbytes(20)
+        b = a if rng.random() < 0.4 else (a[:19] + bytes([a[19] ^ 1]) if rng.random() < 0.5 else rng.randbytes(20))
+        bm = PackBitmap()
+        bm.pack_checksum = b
+        f = BytesIO()
+        write_bitmap_file(f, bm)
+        try:
+            read_bitmap_file(BytesIO(f.getvalue()), pack_checksum=a)
+            real = "1"
+        except ChecksumMismatch:
+            real = "0"
+        lines.append(f"c14.gate {hx(a)} {hx(b)}")
+        meta.append((a, b, real))
+    outs = ctx.driver.batch(lines)
+    for (a, b, real), mo in zip(meta, outs):
+        ctx.count("fmt.gate", (a, b), True, real)
+        if mo != real:
+            ctx.disagree("fmt.gate", {"pack": hx(a), "stored": hx(b)}, mo, real)
+        if (a == b) != (real == "1"):
+            ctx.oracle_fail("fmt.gate", {"pack": hx(a), "stored": hx(b)}, "bitmap checksum gate does not separate own/foreign packs",
+                            "bitmap-for-other-pack-trusted")
+    # refs: loose files over packed-refs
+    import shutil
+    names = ["refs/heads/a", "refs/heads/b", "refs/tags/t", "refs/heads/x/y"]
+    shas = [("%040x" % (i + 1)) for i in range(5)]
+    lines, meta = [], []
+    for it in range(ctx.budget(30)):
+        d = ctx.scratch / f"refs-{it}"
+        if d.exists():
+            shutil.rmtree(d)
+        d.mkdir(parents=True)
+        loose = {n: rng.choice(shas) for n in names if rng.random() < 0.5}
+        packed = {n: rng.choice(shas) for n in names if rng.random() < 0.6}
+        for n, v in loose.items():
+            p = d / n
+            p.parent.mkdir(parents=True, exist_ok=True)
+            p.write_text(v + "\n")
+        if packed or rng.random() < 0.5:
+            (d / "packed-refs").write_text("# pack-refs with: peeled fully-peeled sorted \n" +
+                                           "".join(f"{v} {n}\n" for n, v in sorted(packed.items())))
+        rc = DiskRefsContainer(str(d))
+        for n in names + ["refs/heads/none"]:
+            real = rc.read_ref(n.encode())
+            lines.append("c14.refs.read " + (";".join(f"{k}={v}" for k, v in loose.items()) or "-") + " " +
+                         (";".join(f"{k}={v}" for k, v in packed.items()) or "-") + " " + n)
+            meta.append(("read", (real or b"none").decode()))
+        # pack_refs(all=True) then read back the files themselves
+        sel = [n for n in names if n in loose or n in packed]
+        rc.pack_refs(all=True)
+        for n in names:
+            lf = d / n
+            lval = lf.read_text().strip() if lf.is_file() else "none"
+            pval = "none"
+            if (d / "packed-refs").exists():
+                for ln in (d / "packed-refs").read_text().splitlines():
+                    if ln.endswith(" " + n) and not ln.startswith("#"):
+                        pval = ln.split(" ")[0]
+            rval = (DiskRefsContainer(str(d)).read_ref(n.encode()) or b"none").decode()
+            lines.append("c14.refs.pack " + (";".join(f"{k}={v}" for k, v in loose.items()) or "-") + " " +
+                         (";".join(f"{k}={v}" for k, v in packed.items()) or "-") + " " + (",".join(sel) or "-") + " " + n)
+            meta.append(("pack", f"{lval} {pval} {rval}"))
+        shutil.rmtree(d, ignore_errors=True)
+    outs = ctx.driver.batch(lines)
+    for (what, real), mo, ln in zip(meta, outs, lines):
+        ctx.count("fmt.refs." + what, ln, True, what)
+        if mo != real:
+            ctx.disagree("fmt.refs." + what, {"line": ln}, mo, real)
